@@ -25,7 +25,7 @@ def heading(level, style, k):
     if style == "closed": return b"#" * level + b" " + title + b" " + b"#" * level + b"\n", title
     return b"#" * level + b" " + title + b"\n", title
 
-def build(meta, pre, secs):
+def build(meta, pre, secs, tight=False):
     """secs: list of (level, style, body idx).  Returns (source, [(heading line, expected note)], preamble note)"""
     src = meta
     pieces = []
@@ -38,6 +38,7 @@ def build(meta, pre, secs):
         body = BODIES[b]
         note = b"\n" + (body + b"\n" if body else b"")
         if k == len(secs) - 1 and body: note = b"\n" + body        # the document ends with the body's own newline
+        if tight and body and style != "setext": note = note[1:]      # the body starts on the line right after the heading
         pieces.append((lead + h if False else h, note, title))
         src += lead + h + note; lead = b""
     return src, pieces, prenote
@@ -73,6 +74,7 @@ def cases_list(tier):
                         if n >= 3 and (m in (1, 4)): continue
                         out.append((seq, styles, bods, m, pr, 0))
                         if n <= 2 and m in (0, 2): out.append((seq, styles, bods, m, pr, 1))        # the same document with CRLF line ends
+                        if n <= 2 and m == 0: out.append((seq, styles, bods, m, pr, 2))             # bodies that start on the line right after their heading
     return out
 
 def deep_cases():
@@ -94,9 +96,9 @@ def make_case(cl):
     def case(idx):
         seq, styles, bods, m, pr, crlf = cl[idx]
         secs = list(zip(seq, styles, bods))
-        src, pieces, prenote = build(METAS[m], PRE[pr], secs)
+        src, pieces, prenote = build(METAS[m], PRE[pr], secs, tight=(crlf == 2))
         meta_len = len(METAS[m])
-        if crlf:
+        if crlf == 1:
             x = lambda b: b.replace(b"\n", b"\r\n")
             meta_len = len(x(METAS[m])); src = x(src); pieces = [(x(h), x(nn), t) for h, nn, t in pieces]; prenote = x(prenote) if prenote else prenote
         case_d = dict(src=src.decode("latin-1"))
